@@ -22,6 +22,7 @@ theorem start_FI {s : BSt} (h : StartF s) : FI none [] s := by
     plog := fun i p hp => by rw [hth] at hp; cases hp
     flg := fun f hff => by rw [h.flags] at hff; cases hff
     flgP := fun f hff => by cases hff
+    popFlag := fun i st hst => by rw [hth] at hst; cases hst
     rem := fun gf hgf => by rw [h.removalFlags] at hgf; cases hgf
     accLt := fun i f hff => by rw [hth] at hff; cases hff
     accNodup := fun i => by rw [hth]; exact List.nodup_nil
